@@ -114,6 +114,26 @@ def gen_point(rng, hot, date_only_ok=True):
     return date + tm + tz
 
 
+def gen_dur(rng):
+    """A duration: mostly from the fixed list, sometimes of random size (so
+    that no magnitude is structurally out of reach)."""
+    r = rng.random()
+    if r < 0.8:
+        return rng.choice(DURS)
+    sign = "-" if rng.random() < 0.3 else ""
+    if r < 0.86:
+        return "%sP%dD" % (sign, rng.choice(
+            [rng.randint(1, 1000), rng.randint(1000, 200000)]))
+    if r < 0.9:
+        return "%sPT%dH" % (sign, rng.randint(1, 4000000))
+    if r < 0.94:
+        return "%sP%dM" % (sign, rng.randint(1, 3000))
+    if r < 0.97:
+        return "%sP%dY" % (sign, rng.randint(1, 3000))
+    return "%sP%dYT%dS" % (sign, rng.randint(0, 500), rng.randint(
+        1, 10 ** 9))
+
+
 def gen_rec(rng, hot):
     p = gen_point(rng, hot, date_only_ok=False)
     d = rng.choice([x for x in DURS if not x.startswith("-")])
@@ -195,7 +215,7 @@ def gen_op(rng, kind, hot, handles):
                   "day_of_week": rng.choice([1, 7])}
         return ["mk", kw]
     if kind == "add":
-        return ["add", gen_point(rng, hot), rng.choice(DURS)]
+        return ["add", gen_point(rng, hot), gen_dur(rng)]
     if kind == "sub":
         return ["sub", gen_point(rng, hot), gen_point(rng, hot)]
     if kind == "cmp":
@@ -260,7 +280,7 @@ def gen_op(rng, kind, hot, handles):
         if not vals:
             return gen_op(rng, "hold", hot, handles)
         if kind == "held_add":
-            return ["held_add", rng.choice(vals), rng.choice(DURS)]
+            return ["held_add", rng.choice(vals), gen_dur(rng)]
         return ["held_reprs", rng.choice(vals)]
     if kind == "dto_proc":
         offs = [rng.choice(DURS) for _ in range(rng.choice([0, 1, 1, 2]))]
